@@ -8,9 +8,14 @@ package main
 import (
 	"bytes"
 	"encoding/json"
+	"errors"
 	"fmt"
+	"os"
+	"os/exec"
 	"strings"
 	"unicode/utf8"
+
+	errorsv3 "gopkg.in/hedzr/errors.v3"
 
 	"github.com/hedzr/logg/slog"
 )
@@ -175,6 +180,9 @@ func runC04(r *run) {
 				attrs: g.genAttrs(1+g.intn(4), 2, true, true), tagW: 3, minW: 36, name: "other"}
 			encRun(r, "C04", noise)
 		}
+		if i%10 == 4 {
+			encPanicNoise([]string{"c", "l", "j"}[(i/10)%3])
+		}
 		if i%10 == 9 {
 			encStringerNoise([]string{"l", "j", "c"}[(i/10)%3])
 		}
@@ -279,6 +287,12 @@ func runC04(r *run) {
 	}
 	quoteProbes(r, g, true, nq)
 	slog.VerifResetGlobals()
+	// the same in go-test mode for records with error values (the twin binary, oracle only)
+	if exe := os.Getenv("VERIF_HARNESS"); exe != "" {
+		if err := r.mergeChild(exec.Command(exe+".test", "-test.v", "c04test", fmt.Sprint(r.seed), r.tier)); err != nil {
+			r.violate(violation{What: "the go-test-mode twin of the harness failed: " + err.Error()})
+		}
+	}
 }
 
 // c04PreparedLists: attribute lists prepared once by the application (Attrs values, []Attr) and passed to the verbs again
@@ -346,4 +360,90 @@ func c04PreparedLists(r *run, g *rng) {
 			}
 		}
 	}
+}
+
+// c04test / c11test <seed> <tier>: JSON (and logfmt) records carrying error values (plain, joined, with stack traces) in
+// go-test mode, where the text formats append a dump of the error's origin: a JSON record stays one line holding one
+// JSON object, and every record has the shape of its logger's format. Oracle only (the dump is outside the model).
+func init() {
+	childModes["c04test"] = func(a []string) { jsonTestTwin("C04", a) }
+	childModes["c11test"] = func(a []string) { jsonTestTwin("C11", a) }
+}
+
+func jsonTestTwin(prop string, a []string) {
+	seed, tier := uint64(1), "quick"
+	if len(a) >= 2 {
+		fmt.Sscan(a[0], &seed)
+		tier = a[1]
+	}
+	dir, err := os.MkdirTemp("", "jsontest")
+	must(err)
+	defer os.RemoveAll(dir)
+	r := newRun(prop, seed+104659, tier, dir)
+	g := &rng{s: r.seed*11 + 4}
+	if !slog.VerifErrorDumpActive() {
+		r.violate(violation{What: "harness: the twin is not in go-test mode (the error dump is off)"})
+	}
+	n := 240
+	if tier == "thorough" {
+		n = 3000
+	}
+	slog.VerifResetGlobals()
+	for i := 0; i < n; i++ {
+		rec := &recorder{}
+		l := slog.New(fmt.Sprintf("jt-%d", i)).SetWriter(rec).SetErrorWriter(rec).SetLevel(slog.TraceLevel).SetJSONMode(true)
+		fl := slog.LstdFlags | slog.LnoInterrupt
+		if g.chance(1, 2) {
+			fl &^= slog.Lcaller
+		}
+		slog.SetFlags(fl)
+		var e error
+		kind := g.intn(4)
+		switch kind {
+		case 0:
+			e = errorsv3.New("an error with a stack trace %d and a \"quote\"", i)
+		case 1:
+			e = errors.New("a plain error")
+		case 2:
+			e = errors.Join(errors.New("first"), errors.New("second"))
+		default:
+			e = fmt.Errorf("wrapped: %w", errorsv3.New("inner with stack"))
+		}
+		args := []any{"err", e}
+		if g.chance(1, 2) {
+			args = append(args, "zone", "eu", "n", i)
+		}
+		if g.chance(1, 3) {
+			args = append([]any{"a", 1}, args...)
+		}
+		if g.chance(1, 4) {
+			args = []any{slog.NewGroupedAttr("inner", slog.NewAttr("err", e), slog.NewAttr("k", 1)), "z", 2}
+		}
+		msg := []string{"failed", "failed\nsecond line", "failed\nsecond line\n", "   lead"}[g.intn(4)]
+		verb := g.intn(3)
+		func() {
+			defer func() { _ = recover() }()
+			switch verb {
+			case 0:
+				l.Error(msg, args...)
+			case 1:
+				l.Info(msg, args...)
+			default:
+				l.Warn(msg, args...)
+			}
+		}()
+		w := rec.take()
+		r.seen(fmt.Sprintf("testmode-json|%d|%d|%v", kind, verb, fl&slog.Lcaller != 0))
+		input := map[string]any{"error_kind": []string{"errors.v3 with stack", "plain", "joined", "wrapped errors.v3"}[kind], "message": fmt.Sprintf("%q", msg), "caller_flag": fl&slog.Lcaller != 0, "args": len(args) / 2, "mode": "go test"}
+		if len(w) != 1 {
+			r.violate(violation{What: "a JSON record with an error value was not delivered in one Write (go-test mode)", Input: input, Actual: fmt.Sprintf("%d writes", len(w))})
+			continue
+		}
+		p := w[0]
+		var obj map[string]any
+		if bytes.Count(p, []byte{'\n'}) != 1 || !bytes.HasSuffix(p, []byte("}\n")) || json.Unmarshal(p, &obj) != nil || obj["msg"] != msg {
+			r.violate(violation{What: "a JSON logger's record with an error value is not one line holding one JSON object with the message (go-test mode)", Input: input, Actual: fmt.Sprintf("%q", p)})
+		}
+	}
+	r.reportAsChild()
 }
